@@ -25,7 +25,7 @@ func init() {
 		{"lexing", "Remover", "Token"}, {"lexing", "Parser", "Errs"}, {"lexing", "Parser", "Shift"},
 		{"jsonx", "", "lexOperator"}, {"jsonx", "", "lexJSONX"}, {"jsonx", "", "tokener"},
 		{"jsonx", "semiInserter", "Token"}, {"jsonx", "", "newParser"},
-		{"jsonx", "parser", "seeOp"}, {"jsonx", "parser", "expectOp"},
+		{"jsonx", "parser", "seeOp"}, {"jsonx", "parser", "expectOp"}, {"jsonx", "parser", "enterNested"},
 		{"jsonx", "", "parseValue"}, {"jsonx", "", "parseObjectEntries"}, {"jsonx", "", "parseListEntries"},
 		{"jsonx", "", "parseIdentList"}, {"jsonx", "", "parseStringValue"}, {"jsonx", "", "parseFloatValue"},
 		{"jsonx", "", "encodeBasic"}, {"jsonx", "", "encodeObject"}, {"jsonx", "", "encodeList"},
@@ -300,6 +300,12 @@ func genJsonxVal(repo string, fs facts) (string, error) {
 		return "", fmt.Errorf("encodeBasic: tokInt arm not recognised")
 	}
 
+	// 8. nesting limit of the recursive descent (const maxNestingDepth, checked by enterNested)
+	depthLimit := "none"
+	if v, ok := jx.consts()["maxNestingDepth"]; ok && jx.fn("parser", "enterNested") != nil {
+		depthLimit = fmt.Sprintf("some %d", v)
+	}
+
 	var b strings.Builder
 	b.WriteString("import PubModel.C07.Basic\nnamespace PubModel.Gen.JsonxVal\nopen PubModel.C07\n\n")
 	var kw []string
@@ -314,6 +320,7 @@ func genJsonxVal(repo string, fs facts) (string, error) {
 	fmt.Fprintf(&b, "/-- jsonx/print.go: Fprint decodes with UseNumber and write has a json.Number arm -/\ndef useNumber : Bool := %v\n\n", useNumberDec)
 	fmt.Fprintf(&b, "/-- jsonx/print.go: format byte of the FormatFloat call -/\ndef fmtByte : Char := Char.ofNat %d\n\n", fmtByte)
 	fmt.Fprintf(&b, "/-- jsonx/encode.go encodeBasic: the tokInt arm converts with big.Int.SetString -/\ndef intConv : Bool := %v\n\n", intConv)
+	fmt.Fprintf(&b, "/-- jsonx/parse_value.go: nesting of objects and lists beyond this is reported as jsonx.tooDeep -/\ndef maxNestingDepth : Option Nat := %s\n\n", depthLimit)
 	b.WriteString("def cfg : Cfg :=\n  { keywords := keywords.map String.toList, operators := operators, expSigns := expSigns,\n    signedFloat := signedFloat, useNumber := useNumber, fmtByte := fmtByte, intConv := intConv }\n\n")
 	b.WriteString("end PubModel.Gen.JsonxVal\n")
 
@@ -324,5 +331,6 @@ func genJsonxVal(repo string, fs facts) (string, error) {
 	fs["jsonx.useNumber"] = useNumberDec
 	fs["jsonx.fmtByte"] = string(fmtByte)
 	fs["jsonx.intConv"] = intConv
+	fs["jsonx.maxNestingDepth"] = depthLimit
 	return b.String(), nil
 }
